@@ -1101,13 +1101,25 @@ fn run_episode(drv: &mut dyn Drv, meta: &Meta, args: &RunArgs, episode: u64, rep
                         }
                     } else if let Some(bt) = before_to {
                         // each field of the target holds either its old value or the source's
-                        let out = match ep.exec(Op::ReadAll { slot: to, mask: ep.written_mask(to) }, report) {
+                        // a may-stay-unwritten field that the source never wrote may have been
+                        // copied over the target's (uninitialised bytes): it is not read any more
+                        let mut mask = ep.written_mask(to);
+                        for (kf, f) in src.fields.iter().enumerate() {
+                            if *f == FState::Unwritten {
+                                mask &= !(1u64 << kf);
+                            }
+                        }
+                        let out = match ep.exec(Op::ReadAll { slot: to, mask }, report) {
                             Some(o) => o,
                             None => break,
                         };
                         ep.ops.pop();
                         let mut fields = bt.fields.clone();
                         for kf in 0..fields.len() {
+                            if src.fields[kf] == FState::Unwritten {
+                                fields[kf] = FState::Unwritten;
+                                continue;
+                            }
                             let o = &out.obs[kf];
                             if o.skipped {
                                 continue;
